@@ -76,6 +76,7 @@ def generate(seed, tier, index):
     nclients = rng.choice([1, 1, 2])
     steps = [{"op": "start_client", "c": c} for c in range(nclients)]
     all_vecs = [(sp["name"], g["name"], v) for sp in specs for g in G.effective_groups(sp).values() for v in g["vectors"].values()]
+    revealed = set()  # (device, vector, element) hidden by definition, shown by the driver at run time
     for _ in range(rng.randint(1, 10 if thorough else 5)):
         if rng.random() < 0.35:
             # history between two episodes (each episode starts from quiescence): properties and groups switched off and on
@@ -88,8 +89,21 @@ def generate(seed, tier, index):
                 steps.append({"op": "d_venable", "dev": dn, "vec": hv["name"], "value": rng.random() < 0.5})
             else:
                 steps.append({"op": "d_genable", "dev": dn, "group": gn, "value": rng.random() < 0.5})
-        d, v = rng.choice(_writable(specs))
-        els = [e for e in v["elements"].values() if e["enabled"]]
+        hidden = [(dn, v_, e_) for dn, v_ in _writable(specs) for e_ in v_["elements"].values()
+                  if not e_["enabled"] and (dn, v_["name"], e_["name"]) not in revealed]
+        if hidden and rng.random() < 0.25:
+            # the driver shows a member of a property that was hidden when the clients first saw the property; the clients
+            # learn of it through a repeated definition (a further handshake), and the next episode may write it
+            dn, v_, e_ = rng.choice(hidden)
+            steps.append({"op": "d_eenable", "dev": dn, "vec": v_["name"], "el": e_["name"], "value": True})
+            steps.append({"op": "c_handshake", "c": rng.randrange(nclients), "device": dn, "name": rng.choice([None, v_["name"]])})
+            revealed.add((dn, v_["name"], e_["name"]))
+            d, v = dn, v_
+        else:
+            d, v = rng.choice(_writable(specs))
+        els = [e for e in v["elements"].values() if e["enabled"] or (d, v["name"], e["name"]) in revealed]
+        if not els:
+            continue
         chosen = rng.sample(els, rng.randint(1, len(els)))
         if v["kind"] == "Switch" and rng.random() < 0.5:
             chosen = [rng.choice(els)]
@@ -110,6 +124,14 @@ def generate(seed, tier, index):
                     n = rng.choice([700, 1000, 1200])
                 pairs.append([e["name"], {"blob_hex": bytes(rng.randrange(256) for _ in range(n)).hex(),
                                           "format": rng.choice([".fits", ".jpg", "", ".x\xe9"])}, None])
+        if v["kind"] == "BLOB":
+            # the whole newBLOBVector has to stay below the server's 2048-character limit (uploads beyond it are C08's
+            # known finding K03): shrink the largest members until the estimate fits
+            def est(ps):
+                return 160 + len(d) + len(v["name"]) * 6 + sum(90 + len(p[0]) * 6 + 4 * ((len(p[1]["blob_hex"]) // 2 + 2) // 3) for p in ps)
+            while est(pairs) > 1900:
+                big_ = max(pairs, key=lambda p: len(p[1]["blob_hex"]))
+                big_[1]["blob_hex"] = big_[1]["blob_hex"][: (len(big_[1]["blob_hex"]) // 4) * 2]
         step = {"op": "write", "c": rng.randrange(nclients), "dev": d, "vec": v["name"], "els": pairs}
         if v["kind"] in ("Switch", "Text") and len(els) >= 2 and rng.random() < 0.3:
             # a second submit on the same property by the same client, issued before the answer to the first can have arrived
